@@ -24,6 +24,10 @@ CHECKS = {
    text="SebufTs.tla defines when a JSON value is a value of a declared TypeScript type with every present member declared at that position (Inhabits, over the abstract syntax of interfaces, literal unions, intersections, Record<>, arrays, optional and null unions); MC_Ts checks a truth table of the operator and enumerates the URL-field family. The REAL declarations of both TS plugins are read by harness/tsdecl and logged; TLC judges (A) for the 128 construct x context schemas of MC_Json and 3 (quick) / 9 (thorough) value classes each: the contract form Enc(schema, value) of requests against the declared request interface and the wire JSON of the real Go server against the TS client's result type, and client declarations = server declarations; (B) for verb x 12 field kinds x 64-bit encoding x placement (path, optional query, required query) x value class: the object the REAL emitted TS server hands to its handler (driven by the real TS client in node 22) against the declared request interface.",
    design="§7 C07", technique="TLA+ operator (Inhabits) evaluated by TLC on the real emitted TypeScript declarations, real Go server wire JSON and real TS handler arguments (trace validation, inventory mode) + TLC-checked truth table",
    note="Trusted: TLC; harness/tsdecl (a recursive-descent reader for the declaration subset the generators emit; unit-tested; a declaration it cannot read is a verdict declarations_unreadable, not a pass); node 22; where C05's findings make the wire differ from the contract form only the real wire is judged; precision of 64-bit values carried as JS numbers (int64_encoding=NUMBER, documented risk) is not judged."),
+ "C17": dict(
+   text="SebufConc.tla models the generated server and client at the grain of their shared state (validator singleton behind sync.Once, read-only route configuration, per-request message, client default headers vs per-call header map) as interleaved request processes; TLC checks handler isolation, client isolation, validator-once and completion over all interleavings of a bounded instance, and - as a self-test run by the check - finds the violation in two deliberately flawed designs of the same module (pooled request message without reset; per-call options written into the shared default map). The REAL emitted server (one registered instance) and client (one shared instance per service) are then driven, under the race detector, with seeded random multisets of raw HTTP requests and client calls (routes whose binding leaves fields untouched, body verbs with and without body, service/method headers, per-call header and content-type options) in groups at parallelism 1, 4, 16, 64; every distinct call is also issued alone on a freshly registered server through a fresh client; Trace_Conc.tla consumes the globally ordered Begin / Sent / Saw / End events of each group and enables a step only if it carries exactly what the call yields alone; a race report or a runtime concurrent-map crash is an event without action.",
+   design="§7 C17", technique="TLA+ model checking (TLC) of the concurrency design incl. two flawed designs as self-test + TLC trace validation of interleaved real executions under the Go race detector against isolated reference executions",
+   note="Trusted: TLC; the Go race detector (a dynamic detector: it reports races that happen in the explored schedules, not all possible ones); schedules are sampled by repetition at several parallelism levels (720 calls quick, 32000 thorough), not enumerated; the global event order is a sequence number taken under each operation's lock at emission."),
  "C02": dict(
    text="SebufWire.tla is model-checked exhaustively (MC_Wire_C02: verb x body shape x content type x URL value classes, 4320 abstract requests) for C02_UrlWins / C02_BadUrl400; every TLC-enumerated request is concretised per field kind and replayed through the real emitted BindingMiddleware, and the recorded events (BodyRead, HandlerSaw, Resp) are validated by TLC against Trace_Wire.tla, which re-derives the admissible handler view from the logged abstract request.",
    design="§7 C02", technique="TLA+ model checking (TLC) + replay of TLC-enumerated requests + TLC trace validation of real server events"),
@@ -82,7 +86,7 @@ CHECKS = {
    note="Trusted: TLC; 'bounded time' is observed with a generous bound (10 s; normal runs take ~10 ms), not proved; a one-line stderr diagnostic with exit status 1 (protobuf-go's own convention) counts as an error answer, a Go panic or death by signal as a crash."),
 }
 
-NOT_YET = "check not built yet (work in progress; see DESIGN.md §10)"
+NOT_YET = "check not built yet (work in progress)"
 
 m = {
  "version": 1,
